@@ -19,7 +19,8 @@ META = {
         "step's derived logger), a capturing LoggerInterface installed with set_logger, a suspension after (almost) every "
         "unit so that each prefix of completed work is left behind at some invocation, optional crashes, and every split of "
         "the history between the invocation payload and later pages (including 'only the EXECUTION operation on page 1'). "
-        "Histories are pruned (children of completed contexts are not handed back). Oracle (log judge), per invocation k "
+        "Histories are pruned (children of completed contexts are not handed back; contexts whose result exceeds the test-side patched "
+        "checkpoint limit are re-traversed, their log calls count as completed work). Oracle (log judge), per invocation k "
         "with the set H of operations complete when it began: a log call is emitted iff no operation of H follows it in "
         "program order (both directions: silence before the replay boundary, sound after it, including inside newly "
         "executed steps); a first invocation emits everything; every record carries executionArn and records from step "
@@ -77,6 +78,11 @@ def mon_c17(run, case):
             later = [p for p, kk in zip(H, Hkeys) if kk > pos and not p.startswith(c["path"] + "/") and p != c["path"]]
             if c["in_step"]:
                 later = [p for p in later if not p.startswith(c["path"])]
+            # a call inside a context that was already complete when the invocation began (its body is re-traversed
+            # because only a summary was recorded) belongs to completed work
+            inside_done = [p for p in H if c["path"].startswith(p + "/") and not c["in_step"]]
+            if inside_done:
+                later = later + inside_done
             should_emit = not later
             got = bool(emitted.get((k, c["tag"])))
             if got and not should_emit:
@@ -154,7 +160,9 @@ def cases(draw):
                 body += unit(depth + 1)
             if draw(st.booleans()):
                 body.append(log())
-            return [{"op": "child", "body": body}]
+            # a third of the child contexts return a result above the (test-side patched) checkpoint limit: recorded with
+            # ReplayChildren, their body - log calls included - runs again on replay
+            return [{"op": "child", "body": body, **({"pad": 400} if draw(st.integers(0, 2)) == 0 else {})}]
         if k == "callback":
             between = []
             for _ in range(draw(st.integers(0, 3))):
@@ -181,7 +189,9 @@ def cases(draw):
     be["prune_children"] = True
     be["first_page"] = draw(st.sampled_from([None, None, 0, 0, 1, 2, 4]))
     crashes = draw(st.lists(st.builds(lambda inv, at, n: {"inv": inv, "at": at, "n": n}, st.integers(0, 5), st.sampled_from(["api_before", "api_after", "user"]), st.integers(0, 5)), max_size=1))
-    return {"prog": {"body": body}, "caplog": True, "ext_default": {"after_pending": draw(st.sampled_from([0, 0, 1, 2]))}, "backend": be, "plan": {"crashes": crashes}, "sched": [{"mode": "seq"}], "line": []}
+    # the capturing logger is installed with set_logger() from user code, or it IS the default logger the root context
+    # is built with (before the handler runs)
+    return {"prog": {"body": body}, "limits": {"checkpoint": 300}, "caplog": draw(st.sampled_from([True, True, "default"])), "ext_default": {"after_pending": draw(st.sampled_from([0, 0, 1, 2]))}, "backend": be, "plan": {"crashes": crashes}, "sched": [{"mode": "seq"}], "line": []}
 
 
 def nontrivial(run, case):
